@@ -66,7 +66,9 @@ func TestWorker(t *testing.T) {
 			t.Fatal(err)
 		}
 		emit(out, workerEvent{Ev: "start", Seed: pl.Seed})
+		stopHang := hangWatch(out, p, pl.Seed, pl.Plan)
 		res := RunPlan(t, p, pl.Seed, pl.Plan)
+		stopHang()
 		emit(out, workerEvent{Ev: "res", Seed: pl.Seed, Res: res})
 		return
 	}
@@ -89,7 +91,9 @@ func TestWorker(t *testing.T) {
 		seed := start + uint64(i)*stride
 		plan := mustJSON(p.Gen(seed, tier))
 		emit(out, workerEvent{Ev: "start", Seed: seed})
+		stopHang := hangWatch(out, p, seed, plan)
 		res := RunPlan(t, p, seed, plan)
+		stopHang()
 		if res.Verdict != "ok" {
 			res.Plan = plan
 		}
@@ -119,4 +123,40 @@ func TestGen(t *testing.T) {
 		tier = "quick"
 	}
 	fmt.Printf("PLAN %s\n", mustJSON(p.Gen(seed, tier)))
+}
+
+// hangWatch: a spinning goroutine (livelock) defeats synctest's deadlock
+// detection. When VERIF_HANG_S is set, a case that makes no store/scheduler
+// progress during the second half of that many real seconds is reported as
+// class "hang" and the process exits; a case that is merely slow is "invalid".
+func hangWatch(out *os.File, p *Profile, seed uint64, plan json.RawMessage) (stop func()) {
+	secs, _ := strconv.Atoi(os.Getenv("VERIF_HANG_S"))
+	if secs <= 0 {
+		return func() {}
+	}
+	done := make(chan struct{})
+	go func() {
+		half := time.Duration(secs) * time.Second / 2
+		select {
+		case <-done:
+			return
+		case <-time.After(half):
+		}
+		mid := Progress.Load()
+		select {
+		case <-done:
+			return
+		case <-time.After(half):
+		}
+		res := &Result{Profile: p.ID, Seed: seed, PlanHash: PlanHash(plan), Plan: plan, Nontrivial: true}
+		if Progress.Load() == mid {
+			res.Verdict, res.Class = "violation", "hang"
+			res.Detail = fmt.Sprintf("the operation did not return within %d s of real time and performed no store operation during the last %d s (a goroutine spins or blocks outside the bubble's view)", secs, secs/2)
+		} else {
+			res.Verdict, res.Detail = "invalid", fmt.Sprintf("case still making progress after %d s", secs)
+		}
+		emit(out, workerEvent{Ev: "res", Seed: seed, Res: res})
+		os.Exit(3)
+	}()
+	return func() { close(done) }
 }
